@@ -2,6 +2,7 @@
    Statements only; every proof is `exact <lemma>`. *)
 From Coq Require Import List NArith Arith Bool.
 From RPCX Require Import Pool.Pool Pool.PoolProofs Pool.PoolSites Pool.PoolSitesGen Pool.PoolSitesProofs.
+From RPCX Require Wire.Shared Wire.SharedGen Wire.SharedGenProofs.
 Import ListNotations.
 
 (* byte pools: for every configuration 0 < min <= max (< 2^64) and every size: a request routed to
@@ -66,6 +67,15 @@ Theorem C20_hand_model_is_the_source_s : forall f,
   exists name ops, In (name, ops) handler_paths /\ handle_ops f = skeleton ops.
 Proof. exact handle_ops_is_generated. Qed.
 
+(* frame buffers, about the code as it is now: every control-flow path of every function that materialises a frame in a
+   pooled buffer (regenerated from the source on every run, tools/gowrites2v -> Wire/SharedGen.v) takes the buffer, fills
+   it, writes it at most once and gives it back at most once - in particular no path, error paths included, puts a
+   buffer back twice or uses it after it has been put back *)
+Theorem C20_frame_buffers_follow_the_discipline_at_every_site :
+  forallb (fun sp => Wire.Shared.safe_from 0 (snd sp)) Wire.SharedGen.site_paths = true /\
+  forallb (fun sp => Nat.leb (Wire.Shared.count_writes (snd sp)) 1) Wire.SharedGen.site_paths = true.
+Proof. exact (conj Wire.SharedGenProofs.all_sites_safe Wire.SharedGenProofs.all_sites_write_once). Qed.
+
 Print Assumptions C20_get_fits_its_class.
 Print Assumptions C20_put_is_big_enough.
 Print Assumptions C20_get_returns_requested_length.
@@ -75,3 +85,4 @@ Print Assumptions C20_handle_request_keeps_the_discipline.
 Print Assumptions C20_every_handler_path_keeps_the_discipline.
 Print Assumptions C20_every_handler_path_is_bracketed.
 Print Assumptions C20_hand_model_is_the_source_s.
+Print Assumptions C20_frame_buffers_follow_the_discipline_at_every_site.
